@@ -55,12 +55,19 @@ impl Housekeeper {
             Ordering::Relaxed,
         ) {
             Ok(_) => {
+                #[cfg(mini_moka_verif)]
+                crate::verif::sched::point("hk:acquired");
                 let now = cache.now();
                 self.sync_after.set_instant(Self::sync_after(now));
 
                 cache.sync(MAX_SYNC_REPEATS);
 
+                #[cfg(mini_moka_verif)]
+                crate::verif::sched::point("hk:before_release");
                 self.is_sync_running.store(false, Ordering::Release);
+                #[cfg(mini_moka_verif)]
+                crate::verif::sched::point("hk:released");
+
                 true
             }
             Err(_) => false,
